@@ -309,7 +309,11 @@ def expected_entry_positions(sc, ls, fname):
                 if it.code and it.func == fname:
                     # the entry block is gone; when the block that physically followed it is code of the same function
                     # and still there, it must have been promoted
-                    if it.blk == nxt_bid and sc.bspec[nxt_bid]["kind"] == "code" and not sc.bspec[nxt_bid].get("gap"):
+                    proxy_deleted = any(md and md["op"] == "delete" and md.get("proxy") and md["blk"] == bid
+                                        for md in sc.spec.get("mods", []))
+                    if proxy_deleted:
+                        pass  # retarget_to_proxy: the function entry becomes external, nothing is promoted
+                    elif it.blk == nxt_bid and sc.bspec[nxt_bid]["kind"] == "code" and not sc.bspec[nxt_bid].get("gap"):
                         must.append(pos)
                     else:
                         may.append(pos)
